@@ -626,10 +626,10 @@ impl<'a> TokenLexer<'a> {
 
         match id {
             "else" => {
-                if self
-                    .source
-                    .get(self.current_byte..self.current_byte + char_bytes + 3)
-                    == Some("else if")
+                let else_if_end = self.current_byte + char_bytes + 3;
+                if self.source.get(self.current_byte..else_if_end) == Some("else if")
+                    // The `if` could be the start of an identifier, e.g. `else iffy`
+                    && !self.source[else_if_end..].starts_with(is_id_continue)
                 {
                     self.advance_line(7);
                     return ElseIf;
